@@ -1,0 +1,7 @@
+//go:build !verif
+
+package extpool
+
+import "github.com/nspcc-dev/neo-go/pkg/util"
+
+func verifOrder(hs []util.Uint256) []util.Uint256 { return hs }
